@@ -206,6 +206,67 @@ def make_world(g, tag):
     return w
 
 
+SPECIAL = ['$1', '${1}x', '$name', 'cost: $100', '$$', '50% off', '%s %d %v', 'back\\slash', '\\1 \\0', '&amp;', '$0', 'US$1 ${x}', '$', '%',
+           '$10.50 (${currency})', '\\$1', '%!s(MISSING)', '{{.}}', '#{x}', '\u0000'.replace('0000', '0041'), '---', '[TestU1 - 1]']
+
+
+def update_world(g, tag):
+    """C14 on the UPDATE path: a document is recorded, then replaced (UPDATE_SNAPS=true) by another one whose
+    strings hold text that template / format / regexp replacement would interpret (`$1`, `${x}`, `%s`, `\\1`).
+    The stored text must parse to the new document and be exactly what a first recording of it stores."""
+    r = g.r
+    w = World(tag)
+    opt = r.choice(JSONOPTS)
+    kind = r.choice(['json', 'json', 'sajson'])
+    w.add(mode_line(False, ''))
+    w.add(cfg_line(1, 'snaps', 'f' if kind == 'json' else None, None, 'none', opt))
+    n = r.randint(2, 3)
+    v2 = {}
+    for i in range(1, n + 1):
+        v1 = {'id': i, 'note': r.choice(['old', 'previous $9', 'x']), 'items': [i, 'a']}
+        w.add('begin %d %s' % (i, hx(b'TestU%d' % i)))
+        w.add('%s 1 %d %s %s' % (kind, i, r.choice(['s', 'b']), hx(json.dumps(v1))))
+        w.add('end %d' % i)
+    w.add(mode_line(False, 'true'))
+    for i in range(1, n + 1):
+        sp = r.sample(SPECIAL, 3)
+        v2[i] = {'id': i, 'note': sp[0], 'items': [sp[1], {'k': sp[2]}], r.choice(SPECIAL[:6]): i}
+        txt = present(r, v2[i])
+        w.add('begin %d %s' % (20 + i, hx(b'TestU%d' % i)))
+        w.add('%s 1 %d %s %s' % (kind, 20 + i, r.choice(['s', 'b']), hx(txt)))
+        w.add('end %d' % (20 + i))
+        # the same document recorded for the first time under another name, in the same mode
+        w.add('begin %d %s' % (40 + i, hx(b'TestFresh%d' % i)))
+        w.add('%s 1 %d %s %s' % (kind, 40 + i, r.choice(['s', 'b']), hx(txt)))
+        w.add('end %d' % (40 + i))
+
+    def body_of(fs0, name):
+        if kind == 'json':
+            pp = [x for x in fs0 if x.endswith(b'/f.snap')]
+            ents = parse_snap(fs0[pp[0]]) if pp else None
+            return None if ents is None else dict(ents).get(name + b' - 1')
+        bodies = [fs0[x] for x in fs0 if b'/' + name + b'_1' in x]
+        return bodies[0] if bodies else None
+
+    def oracle(line, raw, ww):
+        fs0 = parse_fs(raw)
+        for i in range(1, n + 1):
+            upd, fresh = body_of(fs0, b'TestU%d' % i), body_of(fs0, b'TestFresh%d' % i)
+            if upd is None or fresh is None:
+                return 'entry of TestU%d / TestFresh%d not found (or the file is not well formed) after the update' % (i, i)
+            try:
+                got = json.loads(upd.decode())
+            except Exception:
+                return 'after the update the stored text of TestU%d is not JSON: %r' % (i, upd[:120])
+            if got != v2[i]:
+                return 'after the update TestU%d stores %r, the document was %r' % (i, got, v2[i])
+            if upd != fresh:
+                return 'an update stores %r, a first recording of the same document stores %r' % (upd[:120], fresh[:120])
+        return None
+    w.add('fsdump', ('update-canonical-and-lossless', oracle))
+    return w
+
+
 # ---------------------------------------------------------------- json.model (tier B)
 # The Lean model of the two library functions (lean/GoSnaps/Json.lean: jsonValid = gjson.Valid,
 # pretty = pretty.PrettyOptions) against the real libraries, one document per `jsonfmt` line:
@@ -383,5 +444,6 @@ def run(ctx):
     g = Gen(ctx.seed * 1000003 + 14)
     n = 300 if ctx.tier == 'quick' else 8000
     worlds = [make_world(g, 'c14-%d' % i) for i in range(n)]
+    worlds += [update_world(g, 'c14-upd-%d' % i) for i in range(60 if ctx.tier == 'quick' else 1500)]
     run_suite(ctx, 'json.canonical', worlds, known=None, chunk=400)
     findings.report(ctx, 'C14')
